@@ -42,6 +42,12 @@ V4 == { [fam |-> "size", params |-> <<a, b, c, d>>, input |-> Bytes4("size", a, 
           a \in Small, b \in ParamStrs, c \in ParamStrs, d \in Small }
 V3 == { [fam |-> "sgr2", params |-> <<a, b, c>>, input |-> Bytes4("sgr2", a, b, c, <<>>)] :
           a \in ParamStrs, b \in {<<0>>, <<2,5,5>>, <<2,5,6>>}, c \in {<<7>>, Nines(20)} }
+      \* the colon forms (ITU T.416): 38:2:r:g:b, 38:2::r:g:b (empty colour-space slot) and 38:5:n
+      \cup { [fam |-> "sgr2", params |-> <<a, b, c>>, input |-> CSI \o <<51, 56, COLON, 50, COLON>> \o P(a) \o <<COLON>> \o P(b) \o <<COLON>> \o P(c) \o <<109>>] :
+          a \in ParamStrs, b \in {<<0>>, <<2,5,6>>}, c \in {<<7>>, <<3,0,0>>} }
+      \cup { [fam |-> "sgr2", params |-> <<b, a, c>>, input |-> CSI \o <<51, 56, COLON, 50, COLON, COLON>> \o P(b) \o <<COLON>> \o P(a) \o <<COLON>> \o P(c) \o <<109>>] :
+          a \in {<<0>>, <<2,5,6>>}, b \in ParamStrs, c \in {<<7>>, <<2,5,6>>} }
+      \cup { [fam |-> "sgr5", params |-> <<a>>, input |-> CSI \o <<51, 56, COLON, 53, COLON>> \o P(a) \o <<109>>] : a \in ParamStrs }
 \* UTF-8: scalar values at every length boundary and around the surrogate gap
 Scalars == {0, 1, 27, 65, 127, 128, 255, 2047, 2048, 4095, 55295, 57344, 65533, 65535, 65536, 131071, 1114110, 1114111}
 VU == { [fam |-> "utf8", params |-> <<NatDigits(c)>>, input |-> Utf8(c)] : c \in Scalars }
